@@ -130,6 +130,7 @@ type Engine struct {
 	// requests from the epilogue task to the scheduler
 	reqAdvance int64
 	reqQuiesce int
+	steadyT0   int64 // C14: start of the steady-clock phase of the epilogue
 	reqCheck   int
 	finalProp  string // property the final expiry check reports under (C14, or C15 after a Clear)
 
@@ -1145,6 +1146,34 @@ func (e *Engine) clockDecision() {
 			d = best - now + int64(e.dec.Choose(3, core.LClock)) - 1
 			probe(PrClockAtExpiry)
 		}
+	case ClkPastExpiry:
+		// a pending expiration, any of them (not the nearest only: a far one
+		// makes the clock pass many sweep periods at once)
+		var cands []int64
+		n := int(atomic.LoadInt32(&e.nvals))
+		for i := 0; i < n; i++ {
+			v := e.vals[i]
+			if v == nil || v.TTL <= 0 || v.NExit > 0 || v.TTL > 1<<50 || v.RetT == 0 {
+				continue
+			}
+			if x := v.InvT + v.TTL; x > now {
+				cands = append(cands, x)
+			}
+		}
+		if len(cands) == 0 {
+			d = int64(1+e.dec.Choose(30, core.LClock)) * 1e9
+			break
+		}
+		x := cands[e.dec.Choose(len(cands), core.LClock)]
+		units := []int64{1e9, 2e9, 3e9, 5e9, 7e9, 10e9, 13e9, 30e9}
+		if b := e.plan.Cfg.BucketSecs; b > 0 {
+			units = append(units, b*1e9, b*1e9) // the width this run configured (a harness knob)
+		}
+		unit := units[e.dec.Choose(len(units), core.LClock)]
+		end := (x/unit + 1) * unit // end of the round period the expiration lies in
+		off := []int64{1, 1e6, unit / 2, unit - 1e6}[e.dec.Choose(4, core.LClock)]
+		d = end + off - now
+		probe(PrClockPastExpiry)
 	case ClkBucket:
 		unit := []int64{1e9, 5e9}[e.dec.Choose(2, core.LClock)]
 		next := (now/unit + 1) * unit
@@ -1226,6 +1255,12 @@ func (e *Engine) serveEpilogue() string {
 		if !e.closed {
 			if q != 0 {
 				e.checkQuiescent(q == 2)
+			}
+			switch q {
+			case 4:
+				e.steadyT0 = time.Now().UnixNano()
+			case 5:
+				e.checkSteadyTTL()
 			}
 			switch c {
 			case OpCheckEmpty:
